@@ -4,7 +4,7 @@ from common import *
 import msref, refserver
 
 NAMES = ["a", "b", "main", 'q"uote', "back\\slash", "sp ace", "{5}", "{3+}", "OK", "NO x", "été", "x ACTIVE", "", "cr\r\nlf", "nul\0x"]
-SAFE_NAMES = ["a", "b", "main", 'q"uote', "back\\slash", "sp ace", "{5}", "OK", "NO x", "été", "BYE"]
+SAFE_NAMES = ["a", "b", "main", 'q"uote', "back\\slash", "sp ace", "{5}", "OK", "NO x", "été", "BYE", "not active", "x ACTIVE"]
 BODIES = ['vacation "a\x0bb\x0cc";\r\n', "# d\u2028e\u2029f\u0085g\r\nkeep;\r\n", "x\x1cy\x1dz\x1e\r\n",
           "keep;", "", "line1\r\nline2\r\n", "OK\r\nNO \"x\"\r\n{3}\r\nBYE\r\n", "no newline at end", "é€😀\r\n", '"quoted"\r\n', "a\nb\rc\r\n",
           "{12}\r\n", "x" * 300, "WARN\r\n", "SYNTAXERROR", "\r\n\r\n", "\ufeffkeep;\r\n\ufeffstop;\r\n"]
